@@ -405,10 +405,10 @@ VALUE_UNIVERSE = ["", "a", "A", "a/b", "...", "a/.../b", "..../x", "x/.....", "/
                   "İK", "A_.-b", "1.0", "sha1:AB,md5:00", "sha1:zz", "a:0", ":", "\x00\x7f", "+", "😀"]
 KELVIN = "\u212a"   # lower-cases to ASCII 'k' (the only non-ASCII scalar whose lower-case mapping is one ASCII letter)
 KEY_UNIVERSE = ["a_b", "aab", "AAB", "A_B", "a_", "aa", "k", "K", "key", "Key", KELVIN, KELVIN + "ey", "ke" + KELVIN, "\u0130", "checksum", "Checksum", "CHECKSUM", "repository_url", "a.b", "a-b", "a_b", "1a", "", "a b",
-                "é", "k%41", "a=b", "zz", "type"]
+                "é", "k%41", "a=b", "zz", "type", "checksums", "Checksums", "hashes", "sha256", "vers", "Vers", "version", "s", "ss", "st", "file_name", "fi", "ff"]
 
 
-KEY_HEAVY = ["a", "arch", "b", "c", "classifier", "distro", "epoch", "os", "type", "vcs_url", "repository_url", "zz", "a_b", "aab", "k", "Key"]
+KEY_HEAVY = ["a", "arch", "b", "c", "classifier", "distro", "epoch", "os", "type", "vcs_url", "repository_url", "zz", "a_b", "aab", "k", "Key", "vers", "version", "s", "ss", "st", "file_name"]
 
 
 def rand_value(r):
@@ -572,7 +572,8 @@ def rand_quals_step(r, sep=":"):
             items += [k(), v()]
         return J([r.pick(["tfi", "tfi", "cf", "tfih"])] + items)
     if c == 25:
-        return J([r.pick(["eqk", "cmpk"]), str(r.below(3)), hx(r.pick(KEY_UNIVERSE + ["ǅ", KELVIN, "KEY", "İ"]))])
+        return J([r.pick(["eqk", "cmpk"]), str(r.below(3)), hx(r.pick(KEY_UNIVERSE + ["ǅ", KELVIN, "KEY", "İ", "\u017f", "\u00df", "\ufb06", "\ufb01le_name", "\ufb01", "\ufb00",
+                                                                               "S", "SS", "\u1e9e", "St", "\u017ft", "FILE_NAME", "\u0131", "\u03c2", "\u00b5"]))])
     if c == 26:
         return J([r.pick(["gett", "hast", "rmt"]), str(r.below(10))])
     if c == 27:
@@ -928,6 +929,15 @@ def cksum_texts(ctx):
             for X_ in ("C0", "c0", "F0FF", "0F", "Ab", "E1"):
                 out.append("%s:%s,%s:%s:00" % (P_, X_, P_, S_))
                 out.append("%s:%s:00,%s:%s" % (P_, S_, P_, X_))
+    # a repeated algorithm (in either letter case) after three or four distinct ones in every order: refused, wherever
+    # the first occurrence ended up
+    for perm in itertools.permutations(["a", "b", "c"]):
+        for rep in perm:
+            for rp in (rep, rep.upper()):
+                out.append(",".join("%s:%02x" % (x, 17 * i) for i, x in enumerate(list(perm) + [rp])))
+    for perm in itertools.permutations(["sha256", "sha512", "md5", "b"]):
+        for rep in (perm[0], perm[1].upper()):
+            out.append(",".join("%s:%02x" % (x, 17 * i) for i, x in enumerate(list(perm) + [rep])))
     out += ["sha1:+aFF", "sha1:0x1F", "sha1:0x", "sha1:0X1f", "sha256:0xdeadbeef", "md5:00ff,sha1:0XAB", "sha1:1e", "sha1:١٢", "sha1:ａｂ", "a:00,b", "a:00,,b:11", "a::00", ":00", "a:", ","]
     if ctx.tier == "thorough":
         for seq in itertools.product(algs + ["A"], repeat=4):
